@@ -99,15 +99,22 @@ func TimeStampToCdr(t *time.Time) cdrType.TimeStamp {
 
 func PlmnIdToCdr(modelsPlmnid models.PlmnId) cdrType.PLMNId {
 	var hexString string
+	var cdrPlmnId cdrType.PLMNId
 	mcc := strings.Split(modelsPlmnid.Mcc, "")
 	mnc := strings.Split(modelsPlmnid.Mnc, "")
-	if len(modelsPlmnid.Mnc) == 2 {
+	// MCC has 3 digits, MNC 2 or 3: anything else cannot be encoded
+	if len(mcc) != 3 {
+		return cdrPlmnId
+	}
+	switch len(mnc) {
+	case 2:
 		hexString = mcc[1] + mcc[0] + "f" + mcc[2] + mnc[1] + mnc[0]
-	} else {
+	case 3:
 		hexString = mcc[1] + mcc[0] + mnc[0] + mcc[2] + mnc[2] + mnc[1]
+	default:
+		return cdrPlmnId
 	}
 
-	var cdrPlmnId cdrType.PLMNId
 	if plmnId, err := hex.DecodeString(hexString); err == nil {
 		cdrPlmnId.Value = plmnId
 	}
